@@ -98,6 +98,10 @@ def _client_prog(conn, scen, log, opts, session=None):
         from tlslite.constants import KeyUpdateMessageType as KU
         for r in conn.send_keyupdate_request(KU.update_requested):
             yield r
+    if opts.get("heartbeat") and conn.heartbeat_supported and \
+            conn.heartbeat_can_send:
+        for r in conn.write_heartbeat(bytearray(b"hb"), 16):
+            yield r
     for r in _write_parts(conn, MSG3, multi):
         yield r
     log.append(("write", len(MSG3)))
@@ -129,6 +133,10 @@ def _server_prog(conn, scen, log, opts, cache=None):
     multi = bool(opts.get("multi_record"))
     for r in _read_n(conn, len(MSG1), log, "read", multi):
         yield r
+    if opts.get("pha") and tuple(conn.version) >= (3, 4) and \
+            conn._pha_supported:
+        for r in conn.request_post_handshake_auth():
+            yield r
     for r in _write_parts(conn, MSG2, multi):
         yield r
     log.append(("write", len(MSG2)))
